@@ -53,25 +53,36 @@ Proof. intros E H i Hi. eapply is_derive_ext; [ | apply (H i Hi) ]. intros t; si
 Lemma dM_eq F D D' : dM F D' -> D' = D -> dM F D. Proof. intros; subst; auto. Qed.
 Lemma dV_eq f d d' : dV f d' -> d' = d -> dV f d. Proof. intros; subst; auto. Qed.
 
+Lemma isd_dot3 (a1 b1 a2 b2 a3 b3 : R -> R) x da1 db1 da2 db2 da3 db3 :
+  is_derive a1 x da1 -> is_derive b1 x db1 -> is_derive a2 x da2 -> is_derive b2 x db2 -> is_derive a3 x da3 -> is_derive b3 x db3 ->
+  is_derive (fun t => a1 t * b1 t + a2 t * b2 t + a3 t * b3 t) x
+            ((da1 * b1 x + a1 x * db1) + (da2 * b2 x + a2 x * db2) + (da3 * b3 x + a3 x * db3)).
+Proof. intros. apply (isd_plus (fun t => a1 t * b1 t + a2 t * b2 t) (fun t => a3 t * b3 t)).
+  apply (isd_plus (fun t => a1 t * b1 t) (fun t => a2 t * b2 t)). all: apply isd_mult; auto. Qed.
+
 (** product rule for matrix products and matrix-vector products *)
 Lemma dM_mul A B A' B' : dM A A' -> dM B B' ->
   dM (fun t => m33_mul ROps (A t) (B t)) (m33_add ROps (m33_mul ROps A' (B 0)) (m33_mul ROps (A 0) B')).
 Proof. intros HA HB i j Hi Hj.
   eapply is_derive_ext; [ intros t; symmetry; apply (e33_mul i j (A t) (B t) Hi Hj) | ].
   rewrite e33_add, !e33_mul by auto.
-  eapply isd_eq; [ repeat apply isd_plus; apply isd_mult; first [ apply HA | apply HB ]; auto; lia | ring ]. Qed.
+  eapply isd_eq; [ apply (isd_dot3 (fun t => e33 i 0 (A t)) (fun t => e33 0 j (B t)) (fun t => e33 i 1 (A t)) (fun t => e33 1 j (B t))
+                                    (fun t => e33 i 2 (A t)) (fun t => e33 2 j (B t)));
+                   [ apply HA | apply HB | apply HA | apply HB | apply HA | apply HB ]; auto; lia | ring ]. Qed.
 Lemma dM_mulv A b A' b' : dM A A' -> dV b b' ->
   dV (fun t => m33_mulv ROps (A t) (b t)) (v3_add ROps (m33_mulv ROps A' (b 0)) (m33_mulv ROps (A 0) b')).
 Proof. intros HA Hb i Hi.
   eapply is_derive_ext; [ intros t; symmetry; apply (e3_mulv i (A t) (b t) Hi) | ].
   rewrite e3_add, !e3_mulv by auto.
-  eapply isd_eq; [ repeat apply isd_plus; apply isd_mult; first [ apply HA | apply Hb ]; auto; lia | ring ]. Qed.
+  eapply isd_eq; [ apply (isd_dot3 (fun t => e33 i 0 (A t)) (fun t => e3 0 (b t)) (fun t => e33 i 1 (A t)) (fun t => e3 1 (b t))
+                                    (fun t => e33 i 2 (A t)) (fun t => e3 2 (b t)));
+                   [ apply HA | apply Hb | apply HA | apply Hb | apply HA | apply Hb ]; auto; lia | ring ]. Qed.
 Lemma dV_add a b a' b' : dV a a' -> dV b b' -> dV (fun t => v3_add ROps (a t) (b t)) (v3_add ROps a' b').
 Proof. intros Ha Hb i Hi. eapply is_derive_ext; [ intros t; symmetry; apply (e3_add i (a t) (b t) Hi) | ].
-  rewrite e3_add by auto. apply isd_plus; auto. Qed.
+  rewrite e3_add by auto. apply (isd_plus (fun t => e3 i (a t)) (fun t => e3 i (b t))); auto. Qed.
 Lemma dV_neg a a' : dV a a' -> dV (fun t => v3_neg ROps (a t)) (v3_neg ROps a').
 Proof. intros Ha i Hi. eapply is_derive_ext; [ intros t; symmetry; apply (e3_neg i (a t) Hi) | ].
-  rewrite e3_neg by auto. apply isd_opp; auto. Qed.
+  rewrite e3_neg by auto. apply (isd_opp (fun t => e3 i (a t))); auto. Qed.
 Lemma dM_T A A' : dM A A' -> dM (fun t => m33_T (A t)) (m33_T A').
 Proof. intros HA i j Hi Hj. eapply is_derive_ext; [ intros t; symmetry; apply (e33_T i j (A t) Hi Hj) | ].
   rewrite e33_T by auto. apply HA; auto. Qed.
